@@ -7,6 +7,7 @@ import (
 	"strings"
 	"sync/atomic"
 	"testing"
+	"time"
 
 	"github.com/xujiajun/nutsdb"
 )
@@ -77,6 +78,23 @@ func runConcCase(c Case, st *Stats, prop string) error {
 			if err := db.Merge(); err != nil {
 				return fmt.Errorf("db%d: Merge of two segments before the concurrent phase failed: %v", di, err)
 			}
+		}
+	}
+	if p.Fresh {
+		for di := range dbs {
+			if !p.PreMerge && p.Slow == 0 {
+				for i := 0; i < 2; i++ {
+					val := make([]byte, c.Cfg.Seg*6/10)
+					if err := dbs[di].Update(func(tx *nutsdb.Tx) error { return tx.Put("pre", []byte(fmt.Sprintf("p%d", i)), val, 0) }); err != nil {
+						return fmt.Errorf("population before the reopen failed: %v", err)
+					}
+				}
+			}
+			time.Sleep(2 * time.Millisecond) // a restarted process does not share a millisecond with its predecessor (2.2)
+			if err := hs[di].Reopen(); err != nil {
+				return fmt.Errorf("db%d: reopen before the concurrent phase failed: %v", di, err)
+			}
+			dbs[di] = hs[di].DB
 		}
 	}
 	newRaceReports() // drain reports of earlier cases
@@ -245,6 +263,9 @@ func runConcCase(c Case, st *Stats, prop string) error {
 	}
 	if p.PreMerge {
 		classes = append(classes, "merged-before-the-concurrent-phase")
+	}
+	if p.Fresh {
+		classes = append(classes, "first-transactions-of-a-fresh-handle")
 	}
 	st.Class("failed-write-transactions", failed)
 	if failed > 0 {
